@@ -420,6 +420,30 @@ def dispatch_rules(ctx: Ctx):
                 if isinstance(a, ast.Dict):
                     writes += [k.value for k in a.keys if isinstance(k, ast.Constant)]
             writes += [k.arg for k in n.keywords if k.arg]
+    # the same holds for every function / constructor of the module that receives the settings as **kwargs (strategy
+    # subclasses): they are handed on to DecodingStrategy.__init__ as they came
+    mod = ctx.repo.module_by_path(DEC)
+    for fnode in [n for n in ast.walk(mod.tree) if isinstance(n, ast.FunctionDef) and n.args.kwarg is not None and n is not fi.node]:
+        kn = fnode.args.kwarg.arg
+        w2 = []
+        for n in ast.walk(fnode):
+            tgts = n.targets if isinstance(n, ast.Assign) else ([n.target] if isinstance(n, ast.AugAssign) else [])
+            for t in tgts:
+                for e in (t.elts if isinstance(t, ast.Tuple) else [t]):
+                    if isinstance(e, ast.Subscript) and isinstance(e.value, ast.Name) and e.value.id == kn and isinstance(e.slice, ast.Constant):
+                        w2.append(e.slice.value)
+            if isinstance(n, ast.Call) and isinstance(n.func, ast.Attribute) and isinstance(n.func.value, ast.Name) and n.func.value.id == kn and n.func.attr in ("update", "setdefault"):
+                w2 += [k.arg for k in n.keywords if k.arg]
+                for a in n.args:
+                    if isinstance(a, ast.Dict):
+                        w2 += [k.value for k in a.keys if isinstance(k, ast.Constant)]
+                    if isinstance(a, ast.Constant):
+                        w2.append(a.value)
+        b2 = sorted(set(w2) & PROTECTED)
+        if b2:
+            ctx.ob("C10.f", f"{fnode.name}@{fnode.lineno}:settings-forwarded-unchanged", False, f"{DEC}:{fnode.lineno}",
+                   f"`{fnode.name}` rewrites {b2} in the **{kn} it forwards: the caller's filter settings never reach the distribution whose log-probabilities are recorded",
+                   construct=f"decoding.py:{fnode.name}:config-overwritten")
     bad = sorted(set(writes) & PROTECTED)
     ctx.ob("C10.f", "get_decoding_strategy:settings-forwarded-unchanged", not bad, fi.loc,
            f"keys of **{kwname} written by the dispatcher: {sorted(set(writes))}" + ("" if not bad else f" -- {bad} are the caller's distribution settings"),
